@@ -20,7 +20,7 @@ def code_script(rng, names, ctx):
         ln = rng.choice([245, 246, 247, 248, 249, 250, 251, 252, 253, 254, 255, 256, 300, 65530, 65535, 65536, 70000])
         if rng.random() < 0.5:
             # total encoded script length exactly at a CompactSize boundary (push overhead: 3 bytes up to 65535, 5 beyond)
-            total = rng.choice([252, 253, 254, 65534, 65535, 65536, 65537])
+            total = rng.choice([252, 253, 254, 65534, 65535, 65536, 65537] + [v for v in G.source_literals() if v >= 80])
             body = total - 2                                   # trailing OP_DROP OP_1
             ln = body - (2 if body - 2 <= 255 else 3 if body - 3 <= 65535 else 5)
             return [G.rbytes(rng, ln).hex(), 'OP_DROP', 'OP_1']
